@@ -598,6 +598,8 @@ class TSim(ciw.Simulation):
 
     def event_and_return_nextnode(self, next_active_node):
         tr = self._trace
+        if tr.hist_mark is not None:
+            hist_collect(self, tr)      # entries appended by timestamp() after the previous frame (C17)
         nd = next_active_node
         if nd is self.nodes[0]:
             label = ('arrival', 0, nd.next_node, cid(nd.next_class) if nd.next_class is not None else None,
@@ -633,6 +635,19 @@ class Trace:
         self.Q = None
         self.stopped = False
         self.init_cev = []
+        self.hist_mark = None      # C17 (optional, cfg['hist_new']): length of the tracker history already attributed
+        self.hist_new = {}         # frame number (0 = initialisation) -> history entries appended after that frame
+        self.hist_full = None      # the whole history at the end of the run
+
+
+def hist_collect(Q, tr):
+    """attribute the tracker-history entries appended since the last call to the last completed frame
+    (optional, switched on by cfg['hist_new']; used by C17)."""
+    h = Q.statetracker.history
+    new = [(tk(e[0]), e[1]) for e in h[tr.hist_mark:]]
+    tr.hist_mark = len(h)
+    k = len(tr.frames)
+    tr.hist_new[k] = tr.hist_new.get(k, []) + new
 
 
 def repo_site(e):
